@@ -13,7 +13,7 @@ RULE = (
     'Function level (a): find_offsets on generated head mappings whose '
     'overlap graph is connected by construction (2-10 series, contiguous or '
     'ragged level ranges, crossing values = smooth curve + per-series shift '
-    '+ noise, lattice or floats up to 1e6; part find_offsets_big: 12-130 series x 127-1400 levels, 16,000-65,000 equations in one fit, table derived from a few drawn numbers). (b): get_series_time_offsets on '
+    '+ noise, lattice or floats up to 1e6; part find_offsets_big: 12-130 series x 127-1400 levels, 16,000-65,000 equations in one fit, table derived from a few drawn numbers; part find_offsets_huge: 168,000 equations x 419 unknowns, a dense design matrix of more than half a gigabyte, judged by stationarity and perturbations). (b): get_series_time_offsets on '
     'generated series collections (falling, bumpy, rising; connected by '
     'construction) with the crossing table recomputed by the exact model. '
     'Table level (part tables): planted datasets with noisy pieces through '
@@ -81,7 +81,7 @@ def independent_solution(table, sids):
     return {s: float(sol[index[s]]) for s in sids}
 
 
-def verify_minimiser(table, offsets, perturbations):
+def verify_minimiser(table, offsets, perturbations, independent=True):
     """The three oracle clauses; table restricted to the fitted series."""
     sids = sorted(offsets)
     scale = max([abs(c) for row in table.values() for c in row.values()]
@@ -107,6 +107,9 @@ def verify_minimiser(table, offsets, perturbations):
     const = {s: offsets[s] + 0.37 * scale for s in sids}
     if abs(objective(table, const) - base) > 1e-6 * (base + 1e-9) + eps:
         raise Violation('objective-not-shift-invariant', '')
+    if not independent:
+        # (the half-gigabyte fit: stationarity and perturbations decide)
+        return
     ref = independent_solution(table, sids)
     diffs = [offsets[s] - ref[s] for s in sids]
     spread = max(diffs) - min(diffs)
@@ -183,6 +186,29 @@ def big_mapping_cases(draw):
     }
 
 
+@st.composite
+def huge_mapping_cases(draw):
+    """One fit whose dense design matrix passes half a gigabyte (168,000
+    equations x 419 unknowns): several years of record on a 1 mm grid.
+    About ten seconds and 0.6 GB per evaluation."""
+    n, nlev = 420, 400
+    return {
+        'big': {'n': n, 'nlev': nlev,
+                'slope': draw(st.sampled_from([-3600.0, -600.0])),
+                'shifts': [draw(st.integers(-4000, 4000)) / 8.0
+                           for _ in range(n)],
+                'trim': 0, 'salt': draw(st.integers(0, 1000)),
+                # a chain: interval s covers the 400 levels from s*stride
+                # on, so far-apart intervals are linked only through many
+                # intermediaries (as the pieces of a long record are)
+                'stride': draw(st.sampled_from([13, 40, 100, 0]))},
+        'perturbations': [draw(st.lists(st.floats(-1.0, 1.0), min_size=n,
+                                        max_size=n))],
+        'relabel': list(range(n)),
+        'huge': True,
+    }
+
+
 def expand_big(big):
     n, nlev = big['n'], big['nlev']
     table = {}
@@ -191,13 +217,17 @@ def expand_big(big):
         if big['trim']:
             lo = (sid * 37 + big['salt']) % (nlev // big['trim'])
             hi = nlev - 1 - (sid * 53 + big['salt']) % (nlev // big['trim'])
-        for level in range(nlev):
+        first = sid * big.get('stride', 0)
+        for level in range(first, first + nlev):
             if lo is not None and not lo <= level <= hi:
                 continue
             noise = ((level * 7919 + sid * 104729 + big['salt']) % 65
                      - 32) / 8.0
+            # (every interval keeps its own clock, started at its first
+            # level, as the pieces of a record do: with a stride the
+            # offsets to be found grow along the chain)
             table.setdefault(level, {})[sid] = (
-                big['slope'] * level + big['shifts'][sid] + noise)
+                big['slope'] * (level - first) + big['shifts'][sid] + noise)
     return table
 
 
@@ -228,7 +258,9 @@ def check_mapping(case):
                         '{} vs {}'.format(sorted(series_ids), sorted(fitted)))
     off = {s: float(o) for s, o in zip(series_ids, offsets)}
     verify_minimiser(table, off, case['perturbations'] + _unit_vectors(
-        len(off)))
+        len(off)), independent=not case.get('huge'))
+    if case.get('huge'):
+        return {'nontrivial', 'design-matrix>512MiB'}
     # a different series serves as the internal zero: relabel ids
     relabel = {s: case['relabel'][s] + 100 for s in sorted(
         {s for row in table.values() for s in row})}
@@ -350,6 +382,11 @@ PARTS = [
          strategy=lambda tier: big_mapping_cases(),
          budget={'quick': 2, 'thorough': 12},
          describe='find_offsets on 16,000-65,000 equations in one fit'),
+    Part('find_offsets_huge', check_mapping,
+         strategy=lambda tier: huge_mapping_cases(),
+         budget={'quick': 1, 'thorough': 1},
+         shards={'quick': 1, 'thorough': 2},
+         describe='find_offsets on 168,000 equations x 419 unknowns'),
     Part('series', check_series, strategy=lambda tier: series_cases(),
          budget={'quick': 100, 'thorough': 1500},
          describe='get_series_time_offsets on generated series'),
